@@ -157,6 +157,14 @@ def shard(ctx):
         run_case(ctx, iso3, options, "c05_%d_%d" % (ctx.shard, ctx.evaluations))
     drive(ctx, strategy(), body, 110 if thorough else 7, shrink=False, tag="runs")
     model.run_fixed(ctx, model.extreme_cases(), lambda iso, o, k: (ctx.count(), run_case(ctx, iso, o, "c05x_%s" % iso)))
+    # the zero boundary of the per-head columns: rows whose pig / chicken carcass weight is 0, given a herd of that species to slaughter
+    t = model.country_table()
+    zero_rows = [(iso, "pig_head") for iso in t[t["kg_meat_per_pig"] == 0]["iso3"].tolist()[:3]] + \
+                [(iso, "chicken_head") for iso in t[t["kg_meat_per_chicken"] == 0]["iso3"].tolist()[:2]]
+    if "SYR" in t[t["kg_meat_per_pig"] == 0]["iso3"].tolist():
+        zero_rows.append(("SYR", None))
+    cases = [(iso, dict(model.BASELINE_COUNTRY, NMONTHS=48, **({col: 10**6} if col else {}))) for iso, col in zero_rows]
+    model.run_fixed(ctx, cases, lambda iso, o, k: (ctx.count(), ctx.event("zero_carcass_weight_row"), run_case(ctx, iso, o, "c05z_%s" % iso)))
     if thorough:
         for i, iso in enumerate(model.iso3_list()):
             if i % ctx.nshards != ctx.shard:
